@@ -1,0 +1,65 @@
+//go:build verif
+
+package geom
+
+// Contracts checked by /verif/govc (comment-only file; see /verif/DESIGN.md).
+// Core type invariants and the Sequence / CoordinatesType layer.
+
+//@ pred CT(t) = 0 <= t && t < 4
+//@ pred Dim(t) = ite(t == 0, 2, ite(t == 3, 4, 3))
+//@ pred SeqInv(s) = s.ctype < 4 && len(s.floats) % Dim(s.ctype) == 0
+//@ pred NPts(s) = len(s.floats) / Dim(s.ctype)
+//@ pred HasZ(t) = t == 1 || t == 3
+//@ pred HasM(t) = t == 2 || t == 3
+
+//@ prop C16,C20
+
+//@ func CoordinatesType.Dimension
+//@   requires t < 4
+//@   ensures result == Dim(t)
+
+//@ func CoordinatesType.Is3D
+//@   ensures result <==> (t % 2 == 1)
+
+//@ func CoordinatesType.IsMeasured
+//@   ensures result <==> ((t / 2) % 2 == 1)
+
+//@ func NewSequence
+//@   requires ctype < 4 && len(coordinates) % Dim(ctype) == 0
+//@   ensures same(result.floats, coordinates) && result.ctype == ctype && SeqInv(result)
+
+//@ func Sequence.Length
+//@   requires SeqInv(s)
+//@   ensures result == NPts(s) && result >= 0 && result * Dim(s.ctype) == len(s.floats)
+
+//@ func Sequence.CoordinatesType
+//@   ensures result == s.ctype
+
+//@ func Sequence.GetXY
+//@   requires SeqInv(s) && 0 <= i && i < NPts(s)
+//@   ensures same(result.X, s.floats[i*Dim(s.ctype)]) && same(result.Y, s.floats[i*Dim(s.ctype)+1])
+
+//@ func Sequence.Get
+//@   requires SeqInv(s) && 0 <= i && i < NPts(s)
+//@   ensures same(result.X, s.floats[i*Dim(s.ctype)]) && same(result.Y, s.floats[i*Dim(s.ctype)+1])
+//@   ensures result.Type == s.ctype
+//@   ensures HasZ(s.ctype) ==> same(result.Z, s.floats[i*Dim(s.ctype)+2])
+//@   ensures s.ctype == 2 ==> same(result.M, s.floats[i*Dim(s.ctype)+2])
+//@   ensures s.ctype == 3 ==> same(result.M, s.floats[i*Dim(s.ctype)+3])
+//@   ensures !HasZ(s.ctype) ==> result.Z == 0
+//@   ensures !HasM(s.ctype) ==> result.M == 0
+
+//@ func Sequence.Slice
+//@   requires SeqInv(s) && 0 <= i && i <= j && j <= NPts(s)
+//@   ensures SeqInv(result) && result.ctype == s.ctype && NPts(result) == j - i
+//@   ensures region(result.floats) == region(s.floats) && offset(result.floats) == offset(s.floats) + i*Dim(s.ctype)
+
+//@ func Sequence.Reverse
+//@   split s.ctype 0 1 2 3
+//@   requires SeqInv(s)
+//@   ensures SeqInv(result) && result.ctype == s.ctype && len(result.floats) == len(s.floats)
+//@   ensures fresh(result.floats)
+//@   ensures forall p, k :: 0 <= p && p < NPts(s) && 0 <= k && k < Dim(s.ctype) ==> same(result.floats[p*Dim(s.ctype)+k], s.floats[(NPts(s)-1-p)*Dim(s.ctype)+k])
+//@   loop 0 invariant 0 <= i && i <= n && n == NPts(s) && stride == Dim(s.ctype)
+//@   loop 0 invariant len(reversed) == len(s.floats) && cap(reversed) == len(s.floats) && offset(reversed) == 0 && region(reversed) >= old(nr) && region(reversed) < nr
+//@   loop 0 invariant forall p, k :: 0 <= p && p < i && 0 <= k && k < stride ==> same(reversed[p*stride+k], s.floats[(n-1-p)*stride+k])
